@@ -100,3 +100,64 @@ func fillStore(st *MemoryStore, n int) []Offset {
 	}
 	return offs
 }
+
+// ---- event shapes used by the persistence harnesses
+
+type evBad struct {
+	C chan int `json:"c"`
+}
+
+// evNamed carries a custom type name on a value receiver.
+type evNamed struct {
+	N int `json:"n"`
+}
+
+var evNamedName = "custom.named.v1"
+
+func (e evNamed) EventTypeName() string { return evNamedName }
+
+// evNamedP carries a custom type name on a pointer receiver.
+type evNamedP struct {
+	N int `json:"n"`
+}
+
+var evNamedPName = "custom.namedp.v1"
+
+func (e *evNamedP) EventTypeName() string { return evNamedPName }
+
+// flakyStore wraps the real MemoryStore; each Append consumes one outcome:
+// 0 ok, 1 rejected with errInjected, 2 deadline expired.
+type flakyStore struct {
+	inner    *MemoryStore
+	outcomes []int
+	calls    int
+}
+
+func (f *flakyStore) Append(ctx context.Context, e *Event) (Offset, error) {
+	i := f.calls
+	f.calls++
+	out := 0
+	if i < len(f.outcomes) {
+		out = f.outcomes[i]
+	}
+	switch out {
+	case 1:
+		return "", errInjected
+	case 2:
+		vmCtxExpire(ctx)
+		return "", context.DeadlineExceeded
+	}
+	return f.inner.Append(ctx, e)
+}
+
+func (f *flakyStore) Read(ctx context.Context, from Offset, limit int) ([]*StoredEvent, Offset, error) {
+	return f.inner.Read(ctx, from, limit)
+}
+
+func (f *flakyStore) SaveOffset(ctx context.Context, id string, o Offset) error {
+	return f.inner.SaveOffset(ctx, id, o)
+}
+
+func (f *flakyStore) LoadOffset(ctx context.Context, id string) (Offset, error) {
+	return f.inner.LoadOffset(ctx, id)
+}
